@@ -5,6 +5,7 @@ import Hdl21Model.ModulePipe
 import Hdl21Model.Lemmas.ConnTypes
 import Hdl21Model.Lemmas.ExportWF
 import Hdl21Model.Lemmas.ResolveTotal
+import Hdl21Model.Lemmas.ArrayPass
 namespace Hdl21.ModulePipe
 open Hdl21 Hdl21.Pkg Hdl21.RoundTrip Hdl21.ExportWF
 
@@ -293,5 +294,47 @@ theorem lookupP_map (p : String) : ∀ (ports : List (String × Nat)),
     by_cases h : a = p
     · simp [h]
     · simp [h, lookupP_map p rest]
+
+
+/-! ### the namespace after `ArrayFlattener` -/
+
+theorem mkElems_names (a : HArr) (nm : String → Nat → String) : ∀ (k : Nat) (els : List (List (String × ArrayPass.AElem))) (is : List HInst),
+    mkElems a nm k els = .ok is → is.map (·.name) = (List.range els.length).map (fun j => nm a.name (k + j))
+  | k, [], is, h => by rw [mkElems] at h; injection h with h; subst h; rfl
+  | k, e0 :: rest, is, h => by
+    rw [mkElems] at h
+    cases hc : elemSConns e0 with
+    | error x => simp [hc] at h
+    | ok cs =>
+      cases hr : mkElems a nm (k + 1) rest with
+      | error x => simp [hc, hr] at h
+      | ok r =>
+        simp only [hc, hr] at h
+        injection h with h; subst h
+        rw [List.length_cons, List.range_succ_eq_map, List.map_cons, List.map_cons, mkElems_names a nm (k + 1) rest r hr, List.map_map]
+        simp only [Nat.add_zero, List.cons.injEq, true_and]
+        apply List.map_congr_left
+        intro j _
+        simp only [Function.comp]
+        congr 1; omega
+
+theorem mkElems_conns (a : HArr) (nm : String → Nat → String) : ∀ (k : Nat) (els : List (List (String × ArrayPass.AElem))) (is : List HInst),
+    mkElems a nm k els = .ok is → ∀ r ∈ is, ∃ es ∈ els, elemSConns es = .ok r.conns
+  | k, [], is, h, r, hr => by rw [mkElems] at h; injection h with h; subst h; cases hr
+  | k, e0 :: rest, is, h, r, hr => by
+    rw [mkElems] at h
+    cases hc : elemSConns e0 with
+    | error x => simp [hc] at h
+    | ok cs =>
+      cases hr' : mkElems a nm (k + 1) rest with
+      | error x => simp [hc, hr'] at h
+      | ok rs =>
+        simp only [hc, hr'] at h
+        injection h with h; subst h
+        rcases List.mem_cons.mp hr with rfl | hr
+        · exact ⟨e0, List.mem_cons_self .., hc⟩
+        · obtain ⟨es, hes, h2⟩ := mkElems_conns a nm (k + 1) rest rs hr' r hr
+          exact ⟨es, List.mem_cons_of_mem _ hes, h2⟩
+
 
 end Hdl21.ModulePipe
